@@ -198,3 +198,46 @@ fn witness_is_move_legal_and_any() {
     }
     assert_eq!(bad, 0);
 }
+
+/// the move selected is the one the text denotes: find_uci(t) answers Ok(m) only with m.to_uci_string() == t (trimmed); a
+/// promotion letter on a move that does not promote, a missing letter on one that does, and a king "promotion" are rejected
+#[test]
+fn witness_find_uci_selects_the_move_the_text_denotes() {
+    let mut bad = 0;
+    let fens = ["rnbqkbnr/pppppppp/8/8/8/8/PPPPPPPP/RNBQKBNR w KQkq - 0 1", "3q4/2P5/8/8/4Q2Q/k7/8/K6Q w - - 0 1", "8/8/8/8/8/k7/4p3/K7 b - - 0 1",
+                "r3k2r/8/8/8/8/8/8/R3K2R w KQkq - 0 1"];
+    for fen in fens {
+        let mut board = Bitboard::from_fen_string_unchecked(fen);
+        let before = snap(&board);
+        let texts: Vec<String> = board.generate_pseudo_legal_moves().iter().map(|m| m.to_uci_string()).collect();
+        let mut candidates: Vec<String> = Vec::new();
+        for t in &texts {
+            candidates.push(t.clone());
+            candidates.push(format!(" {} ", t));
+            if t.len() == 4 { for p in ["q", "r", "b", "n", "k", "p"] { candidates.push(format!("{}{}", t, p)); } }
+            if t.len() == 5 { candidates.push(t[..4].to_string()); candidates.push(format!("{}k", &t[..4])); candidates.push(format!("{}x", t)); }
+        }
+        for c in candidates {
+            let res = board.find_uci(&c);
+            let denotes_a_generated_move = texts.iter().any(|t| t == c.trim());
+            match &res {
+                Ok(m) if m.to_uci_string() != c.trim() => {
+                    if bad < 5 { println!("FAILING-INPUT: fen={:?} find_uci({:?}) answered with the move {}", fen, c, m.to_uci_string()); }
+                    bad += 1;
+                }
+                Ok(_) if !denotes_a_generated_move => { bad += 1; }
+                _ => {}
+            }
+            if snap(&board) != before { bad += 1; board = Bitboard::from_fen_string_unchecked(fen); }
+            if !denotes_a_generated_move {
+                let r2 = board.make_uci(&c);
+                if r2.is_ok() || snap(&board) != before {
+                    if bad < 5 { println!("FAILING-INPUT: fen={:?} make_uci({:?}) was applied although no move has that text (position afterwards {:?})", fen, c, snap(&board)); }
+                    bad += 1;
+                    board = Bitboard::from_fen_string_unchecked(fen);
+                }
+            }
+        }
+    }
+    assert_eq!(bad, 0);
+}
